@@ -119,6 +119,21 @@ class HeapFn(cxx2gal.LoopFn):
             return sum(self.cells(t) for _, t in self.tr.layouts[self.rec_name(q)])
         return 1
 
+    def flat_types(self, q):
+        """the types of the cells of an object of type q, in order"""
+        if q.strip().endswith("&"):
+            return [q]
+        qn = norm_type(q)
+        m = re.fullmatch(r"(.+?)\s*\[(\d+)\]", qn)
+        if m:
+            return self.flat_types(m.group(1)) * int(m.group(2))
+        if self.is_record(qn):
+            out = []
+            for _, t in self.tr.layouts[self.rec_name(qn)]:
+                out += self.flat_types(t)
+            return out
+        return [q]
+
     def field_offset(self, rec, field):
         off = 0
         for f, t in self.tr.layouts[self.rec_name(rec)]:
@@ -305,11 +320,37 @@ class HeapFn(cxx2gal.LoopFn):
                     return self.E(self.inner(x)[1], lambda sz: (
                         "(let %s := HPtr (List.length mem) 0 in let mem := mem ++ [repeat (VInt 0) %d] in "
                         "let evs := evs ++ [HAllocRec nx %s %s] in let nx := nx + 1 in %s)") % ("pnew", cells, "pnew", sz, k("pnew")))
+        if kd == "CXXNewExpr":
+            # new T / new T(other) for a modelled record T: a fresh block (all cells zero / NULL -- the constructor's initialisers are
+            # checked to say just that -- or a copy of the cells of `other`), the ghost event cfg["new_event"]
+            rec = self.rec_name(norm_type(qual(n))[:-1])
+            if rec not in self.tr.layouts or not self.cfg.get("new_event"):
+                raise Unsupported("new of %s" % qual(n))
+            ncells = self.cells(rec)
+            ctor = inn[0] if inn else None
+            while ctor is not None and ctor.get("kind") in SKIP:
+                ctor = self.inner(ctor)[0]
+            cargs = self.inner(ctor) if ctor is not None and ctor.get("kind") == "CXXConstructExpr" else []
+            self.stores = True
+            ev = self.cfg["new_event"].format(p="pnew")
+            if not cargs:
+                self.tr.check_zero_ctor(self.cfg["file"], rec)
+                init = "[" + "; ".join("VPtr HNull" if self.is_rec_ptr(t) else "VInt 0" for t in self.flat_types(rec)) + "]"
+                return "(let pnew := HPtr (List.length mem) 0 in let mem := mem ++ [%s] in let evs := evs ++ [%s] in %s)" % (init, ev, k("pnew"))
+            if len(cargs) == 1 and self.rec_name(qual(cargs[0])) == rec:
+                return self.obj_addr(cargs[0], lambda src: (
+                    "(match hcells mem %s %d with None => Oob | Some cs_ => let pnew := HPtr (List.length mem) 0 in let mem := mem ++ [cs_] in "
+                    "let evs := evs ++ [%s] in %s end)") % (src, ncells, ev, k("pnew")))
+            raise Unsupported("new %s with constructor arguments" % rec)
+        if kd == "CXXDeleteExpr":
+            if not self.cfg.get("delete_event"):
+                raise Unsupported("delete")
+            return self.E(inn[0], lambda p: "(let evs := evs ++ [%s] in %s)" % (self.cfg["delete_event"].format(p=p), k("0")))
         if kd == "CXXConstructExpr" and self.is_opaque_obj(qual(n)) and len(inn) == 1:
             return self.E(inn[0], k)         # SimpleString x = <text>: the same text
         if kd in CASTS and n.get("castKind") == "ConstructorConversion":
             return self.E(inn[0], k)
-        if kd in ("CXXOperatorCallExpr", "CXXMemberCallExpr"):
+        if kd in ("CXXOperatorCallExpr", "CXXMemberCallExpr", "CallExpr"):
             try:
                 tp = self.calls.get(self.callee_name(inn[0]))
             except Unsupported:
@@ -337,6 +378,57 @@ class HeapFn(cxx2gal.LoopFn):
                 if lit is None or other is None:
                     raise Unsupported("text predicate %s needs one literal operand" % tp["text_pred"])
                 return self.E(other, lambda v: k("(%s %s %s)" % (tp["text_pred"], v, coq_text(c_unescape(lit["value"])))))
+            if isinstance(tp, dict) and tp.get("text_pred1"):
+                # text.isEmpty(): the unary predicate named in the spec applied to the text
+                callee = inn[0]
+                while callee.get("kind") in ("ImplicitCastExpr", "ParenExpr"):
+                    callee = self.inner(callee)[0]
+                return self.E(self.inner(callee)[0], lambda v: k("(%s %s)" % (tp["text_pred1"], v)))
+            if isinstance(tp, dict) and (tp.get("format_event") or tp.get("write_event")):
+                # StringFromFormat("fmt", args...): a fresh text identity (ghost counter nx) defined by the ghost event
+                # <format_event> id "fmt" [args]; writeToFile(x): the ghost event <write_event> arg.  An argument is JLit "literal",
+                # JEnc t (encodeXmlText(t)...), JNum n (an integer) or JTxt t (another text)
+                args = list(inn[1:])
+
+                def strip(x):
+                    while x.get("kind") in SKIP or x.get("kind") in CASTS or (x.get("kind") == "CXXConstructExpr" and len(self.inner(x)) == 1):
+                        if x.get("kind") in CASTS and x.get("castKind") in ("LValueToRValue", "IntegralCast"):
+                            break
+                        x = self.inner(x)[0]
+                    return x
+
+                def one(a, kk):
+                    x = strip(a)
+                    if x.get("kind") == "StringLiteral":
+                        return kk("JLit %s" % coq_text(c_unescape(x["value"])))
+                    if x.get("kind") == "ConditionalOperator":
+                        c, t, f = self.inner(x)
+                        t, f = strip(t), strip(f)
+                        if t.get("kind") == "StringLiteral" and f.get("kind") == "StringLiteral":
+                            return self.E(c, lambda vc: kk("JLit (if z2b %s then %s else %s)" % (vc, coq_text(c_unescape(t["value"])), coq_text(c_unescape(f["value"])))))
+                    if x.get("kind") == "CXXMemberCallExpr" and self.callee_name(self.inner(x)[0]) == "asCharString":
+                        callee = self.inner(x)[0]
+                        while callee.get("kind") in ("ImplicitCastExpr", "ParenExpr"):
+                            callee = self.inner(callee)[0]
+                        return one(self.inner(callee)[0], kk)
+                    if x.get("kind") in ("CallExpr", "CXXMemberCallExpr") and self.callee_name(self.inner(x)[0]) == tp.get("enc", "encodeXmlText"):
+                        return self.E(self.inner(x)[1], lambda v: kk("JEnc %s" % v))
+                    if ctype(qual(a))[0] in ("int", "bool", "enum"):
+                        return self.E(a, lambda v: kk("JNum %s" % v))
+                    return self.E(a, lambda v: kk("JTxt %s" % v))
+
+                def many(i, acc, kk):
+                    if i == len(args):
+                        return kk(acc)
+                    return one(args[i], lambda v: many(i + 1, acc + [v], kk))
+                if tp.get("write_event"):
+                    return one(args[0], lambda v: "(let evs := evs ++ [%s (%s)] in %s)" % (tp["write_event"], v, k("0")))
+                fmt = strip(args[0])
+                if fmt.get("kind") != "StringLiteral":
+                    raise Unsupported("format string is not a literal")
+                t = self.tmp("t")
+                return many(1, [], lambda acc: "(let %s := nx in let evs := evs ++ [%s %s %s [%s]] in let nx := nx + 1 in %s)" % (
+                    t, tp["format_event"], t, coq_text(c_unescape(fmt["value"])), "; ".join(acc), k(t)))
             if isinstance(tp, dict) and tp.get("handler"):
                 # a handler that may advance the index it gets by reference: the ghost event AHandler name index literal flags; its result
                 # and the new index are the next pair of the oracle stream hres
@@ -605,6 +697,12 @@ class HeapFn(cxx2gal.LoopFn):
         if kd == "CXXOperatorCallExpr" and isinstance(self.calls.get("operator="), dict) and self.calls["operator="].get("assign_opaque"):
             flags.add("store")
             flags.add("mem")
+        if kd in ("CXXNewExpr", "CXXDeleteExpr"):
+            flags.add("store")
+            flags.add("mem")
+            for g, _ in self.cfg.get("ghosts", []):
+                assigned.add(g)
+                refs.add(g)
         if kd in ("CXXMemberCallExpr", "CallExpr"):
             try:
                 spec = self.calls.get(self.callee_name(self.inner(n)[0]))
@@ -612,6 +710,11 @@ class HeapFn(cxx2gal.LoopFn):
                 spec = None
             if isinstance(spec, dict) and spec.get("recv_field"):
                 flags.add("mem")
+            if isinstance(spec, dict) and (spec.get("format_event") or spec.get("write_event")):
+                flags.add("mem")
+                for g, _ in self.cfg.get("ghosts", []):
+                    assigned.add(g)
+                    refs.add(g)
             if isinstance(spec, dict) and spec.get("handler"):
                 for g, _ in self.cfg.get("ghosts", []):
                     assigned.add(g)
@@ -744,6 +847,39 @@ class HeapTranslator(cxx2coq.Translator):
                         out.append((c["name"], qual(c)))
                 return out
         raise Unsupported("definition of record %s not found in %s" % (rec, path))
+
+    def check_zero_ctor(self, path, rec):
+        """the default constructor of record `rec` initialises every scalar member it names with 0 / false / NULL (other members are
+        default-constructed objects of opaque classes: the empty text, identity 0)"""
+        if rec in getattr(self, "_zero_ok", set()):
+            return
+        docs = list(cxx2coq.clang_docs(self.repo, path, rec))
+        for d in list(docs):          # constructors defined inside the class
+            if d.get("kind") == "CXXRecordDecl" and d.get("name") == rec:
+                docs += [c for c in d.get("inner", []) if c.get("kind") == "CXXConstructorDecl"]
+        found = False
+        for d in docs:
+            if d.get("kind") == "CXXConstructorDecl" and d.get("name") == rec and not [c for c in d.get("inner", []) if c.get("kind") == "ParmVarDecl"] \
+                    and any(c.get("kind") == "CompoundStmt" for c in d.get("inner", [])):
+                found = True
+                for c in d.get("inner", []):
+                    if c.get("kind") != "CXXCtorInitializer":
+                        continue
+                    x = (c.get("inner") or [{}])[0]
+                    while x.get("kind") in SKIP or x.get("kind") in CASTS:
+                        x = (x.get("inner") or [{}])[0]
+                    zero = (x.get("kind") == "IntegerLiteral" and x.get("value") == "0") or \
+                           (x.get("kind") == "CXXBoolLiteralExpr" and not x.get("value")) or \
+                           x.get("kind") in ("CXXNullPtrLiteralExpr", "GNUNullExpr") or \
+                           (x.get("kind") == "CXXConstructExpr" and all(a.get("kind") == "CXXDefaultArgExpr" for a in x.get("inner", [])))
+                    if not zero:
+                        raise Unsupported("constructor of %s initialises %s with something other than zero" % (rec, (c.get("anyInit") or {}).get("name")))
+                body = [c for c in d.get("inner", []) if c.get("kind") == "CompoundStmt"][0]
+                if body.get("inner"):
+                    raise Unsupported("constructor of %s has a body" % rec)
+        if not found:
+            raise Unsupported("default constructor of %s not found" % rec)
+        self._zero_ok = getattr(self, "_zero_ok", set()) | {rec}
 
     def function(self, cfg):
         docs = cxx2coq.clang_docs(self.repo, cfg["file"], cfg["name"])
